@@ -1,6 +1,7 @@
 package main
 
 import (
+	"go/token"
 	"fmt"
 	"go/types"
 	"regexp"
@@ -263,13 +264,42 @@ func propC18(c *Check) {
 	c.touch(av)
 	{
 		its := p.FindCalls(av, `^ValidatorSet\.Iterate\(nil\)`)
-		if len(its) == 1 {
+		walks := p.FindCalls(av, `^ValidatorSet\.Walk\(nil, `)
+		want := map[string]string{"Power": `^Iterator\.KeyValue\(.*\)#0\.Value$`, "PubKey": `^Validators\.Get\(Iterator\.KeyValue\(.*\)#0\.Key\)#0\.Pubkey$`, "Address": `^ConsAddress\.Bytes\(Iterator\.KeyValue\(.*\)#0\.Key\)$`}
+		body := av
+		switch {
+		case len(its) == 1 && len(walks) == 0:
 			c.Held("R3", "walks-ValidatorSet @ "+FuncKey(av), p.InstrPos(its[0]), "")
-		} else {
+		case len(its) == 0 && len(walks) == 1:
+			// the callback form: every entry is handed to the closure (key, value); the walk must not be cut short
+			// on a path that does not fail
+			var cb *ssa.Function
+			if args := walks[0].Common().Args; len(args) > 0 {
+				cb = funcOfValue(args[len(args)-1], 0)
+			}
+			stops := false
+			if cb != nil {
+				for _, e := range Exits(cb) {
+					if e.Kind == exitFailure || len(e.Ret.Results) != 2 {
+						continue
+					}
+					if k, ok := e.Ret.Results[0].(*ssa.Const); !ok || k.Value == nil || k.Value.String() != "false" {
+						stops = true
+					}
+				}
+			}
+			if cb == nil || stops {
+				c.Violated("R3", "walks-ValidatorSet @ "+FuncKey(av), p.InstrPos(walks[0]), "the walk over ValidatorSet can stop before the last entry (or its callback is not resolved)")
+			} else {
+				c.Held("R3", "walks-ValidatorSet @ "+FuncKey(av), p.InstrPos(walks[0]), "Walk with a callback that never stops early")
+				body = cb
+				c.touch(cb)
+				want = map[string]string{"Power": `^\$1$`, "PubKey": `^Validators\.Get\(\$0\)#0\.Pubkey$`, "Address": `^ConsAddress\.Bytes\((\$0)?\)$`}
+			}
+		default:
 			c.Violated("R3", "walks-ValidatorSet @ "+FuncKey(av), p.Pos(av.Pos()), "does not iterate the whole ValidatorSet")
 		}
-		want := map[string]string{"Power": `^Iterator\.KeyValue\(.*\)#0\.Value$`, "PubKey": `^Validators\.Get\(Iterator\.KeyValue\(.*\)#0\.Key\)#0\.Pubkey$`, "Address": `^ConsAddress\.Bytes\(Iterator\.KeyValue\(.*\)#0\.Key\)$`}
-		for _, s := range p.renderedStores(av) {
+		for _, s := range p.renderedStores(body) {
 			for f, re := range want {
 				if strings.HasSuffix(s.addr, "GenesisValidator)#0."+f) {
 					delete(want, f)
@@ -423,6 +453,12 @@ func propC19(c *Check) {
 				}
 			}
 			key := FuncKey(f) + "|" + msg
+			// a constructor that wraps an error handed to it (a callee's result, a parameter) adds context to a failure
+			// that already exists; it is not a new way to fail
+			if decoratesPropagatedError(ci) {
+				c.Held("R3", "block-hook-error-decoration "+key, p.InstrPos(ci), "adds context to a propagated error")
+				continue
+			}
 			// the same reviewed failure may live in a helper of the hook (extracted by a refactoring): it is the
 			// failure of that module's hook with that message, whichever function of the module constructs it
 			if _, listed := reviewed[key]; !listed {
@@ -435,7 +471,7 @@ func propC19(c *Check) {
 			}
 			// only exits that are actually returned from the hook (not the tx-only helpers reachable through shared functions)
 			keysFound = append(keysFound, key)
-			if FuncKey(f) == "x/goat/keeper.Keeper.Finalized" {
+			if FuncKey(f) == "x/goat/keeper.Keeper.Finalized" || strings.HasPrefix(FuncKey(f), "x/goat/keeper.Keeper.Finalized$") {
 				if _, listed := reviewed[key]; !listed {
 					// every failure of the engine hand-off aborts the block by design (C09): wrapped engine errors and
 					// malformed engine answers are engine faults, not broken invariants of this chain
@@ -485,6 +521,78 @@ func propC19(c *Check) {
 
 
 // mayBeNilConst: v is, on some path, the nil constant (directly or through φ-nodes).
+// decoratesPropagatedError: one operand of the error constructor is an error value that was not made here: the
+// result of a call, a parameter or a captured variable (possibly merged by a φ).
+func decoratesPropagatedError(ci ssa.CallInstruction) bool {
+	var operands []ssa.Value
+	for _, a := range ci.Common().Args {
+		operands = append(operands, a)
+		// the array behind a variadic argument list
+		if sl, ok := a.(*ssa.Slice); ok {
+			if arr, ok := sl.X.(*ssa.Alloc); ok && arr.Referrers() != nil {
+				for _, r := range *arr.Referrers() {
+					if ia, ok := r.(*ssa.IndexAddr); ok && ia.Referrers() != nil {
+						for _, r2 := range *ia.Referrers() {
+							if st, ok := r2.(*ssa.Store); ok && st.Addr == ssa.Value(ia) {
+								operands = append(operands, st.Val)
+							}
+						}
+					}
+				}
+			}
+		}
+	}
+	var propagated func(v ssa.Value, depth int) bool
+	propagated = func(v ssa.Value, depth int) bool {
+		if depth > 4 {
+			return false
+		}
+		switch x := v.(type) {
+		case *ssa.MakeInterface:
+			return propagated(x.X, depth+1)
+		case *ssa.ChangeInterface:
+			return propagated(x.X, depth+1)
+		case *ssa.Parameter, *ssa.FreeVar:
+			return types.Identical(v.Type(), errorType)
+		case *ssa.Extract:
+			return types.Identical(v.Type(), errorType) && classifyErr(v, map[ssa.Value]bool{}) != exitSuccess
+		case *ssa.Call:
+			if !types.Identical(v.Type(), errorType) {
+				return false
+			}
+			if cf := calleeFunc(&x.Call); cf != nil && errCtor[funcShort(cf)] {
+				return false
+			}
+			return true
+		case *ssa.Phi:
+			if !types.Identical(v.Type(), errorType) {
+				return false
+			}
+			for _, e := range x.Edges {
+				if !isNilConst(e) && !propagated(e, depth+1) {
+					return false
+				}
+			}
+			return true
+		case *ssa.UnOp:
+			// a captured / named error variable of the function
+			if x.Op == token.MUL && types.Identical(v.Type(), errorType) {
+				switch x.X.(type) {
+				case *ssa.FreeVar, *ssa.Alloc:
+					return true
+				}
+			}
+		}
+		return false
+	}
+	for _, o := range operands {
+		if propagated(o, 0) {
+			return true
+		}
+	}
+	return false
+}
+
 func mayBeNilConst(v ssa.Value, depth int) bool {
 	if depth > 4 {
 		return false
